@@ -111,11 +111,16 @@ def run(rep, idx, tier):
     authority(rep, idx)
 
 
-def typed(rep, rule, site, what, expr, want_expr, want_unit, leaves):
-    """Expression equals the hand-verified normal form; otherwise a unit error is a violation, anything else undecided."""
+def typed(rep, rule, site, what, expr, want_expr, want_unit, leaves, depends=()):
+    """Expression equals the hand-verified normal form; otherwise a unit error is a violation, a result that cannot
+    depend on an input the documented value varies with is a violation, anything else undecided."""
     if expr == want_expr:
         rep.ok(rule, site, what, f"{ir.show(expr)[:100]} : {want_unit}")
         return True
+    for root, why in depends:
+        if not any(x == ('name', root) for x in ir.walk(expr)):
+            rep.bad(rule, site, what, f"{ir.show(expr)[:100]} does not depend on `{root}` at all: {why}")
+            return False
     u = unit_of(expr, leaves)
     if u is not None and str(u).startswith("err"):
         rep.bad(rule, site, what, f"unit error in {ir.show(expr)[:100]}: {u[4:]} (expected a value in unit {want_unit})")
@@ -140,11 +145,16 @@ def translate(rep, idx):
               "window_range.step": 'r', "resource_info.width": 'bw', "window._data_width": 'bw', "window.data_width": 'bw'}
     P = c.parse
     typed(rep, "C03.2", site, "translated start = resource start / ratio + window base", start,
-          P("(resource_info.start // window_range.step) + window_range.start"), 'amP', leaves)
+          P("(resource_info.start // window_range.step) + window_range.start"), 'amP', leaves,
+          depends=[("resource_info", "different resources of the window's map start at different addresses"),
+                   ("window_range", "the same map seen through windows at different bases must report different addresses")])
     size = P("(resource_info.end - resource_info.start) // window_range.step")
     typed(rep, "C03.2", site, "translated end = translated start + resource size / ratio", end,
           c.norm(('bin', '+', P("(resource_info.start // window_range.step) + window_range.start"), size)), 'amP', leaves)
-    typed(rep, "C03.2", site, "translated width = resource width * ratio", width, P("resource_info.width * window_range.step"), 'bm', leaves)
+    typed(rep, "C03.2", site, "translated width = resource width * ratio", width, P("resource_info.width * window_range.step"), 'bm', leaves,
+          depends=[("resource_info", "resources behind one window can have different widths (a sparse window further down narrows them), "
+                    "so a width computed from the window alone is wrong for every resource narrower than the window's map"),
+                   ("window_range", "the width is scaled by the ratio of the window")])
     rep.check(res == P("resource_info.resource"), "C03.1", site, "the translated info describes the same resource", f"resource is {ir.show(res)}",
               nontrivial=False)
     want_path = P("resource_info.path if window_name is None else (window_name, *resource_info.path)")
